@@ -821,21 +821,25 @@ func GenerateSelectResultRowData(r *mysql.Result) error {
 	return nil
 }
 
-// copy from server.generateMapKey()
+// generateMapKey encodes the values of the group-by / distinct columns of a row into a map key.
+// Each value is written as a tag and, for non-NULL values, its length and its text, so that
+// different rows never share a key: NULL differs from the string 'NULL' and
+// ("a+", "b") differs from ("a", "+b").
 func generateMapKey(groupColumns []interface{}) (string, error) {
-	bk := make([]byte, 0, 8)
-	separatorBuf, err := formatValue("+")
-	if err != nil {
-		return "", err
-	}
-
+	bk := make([]byte, 0, 16)
 	for _, v := range groupColumns {
+		if v == nil {
+			bk = append(bk, 'N')
+			continue
+		}
 		b, err := formatValue(v)
 		if err != nil {
 			return "", err
 		}
+		bk = append(bk, 'V')
+		bk = strconv.AppendInt(bk, int64(len(b)), 10)
+		bk = append(bk, ':')
 		bk = append(bk, b...)
-		bk = append(bk, separatorBuf...)
 	}
 
 	return string(bk), nil
